@@ -45,11 +45,11 @@ STYLES = {
 KINDS = {"del": DelegatesTo, "proto": PrototypedFrom}
 
 
-def build_hop1(kind, style, class_prefix="d_", default_delegate=None):
+def build_hop1(kind, style, class_prefix="d_", default_delegate=None, listenable=True):
     name, prefix, tf = STYLES[style]
     # (default_delegate: the delegate is never assigned - it is the trait's own, constant, default object)
     ns = {"__prefix__": class_prefix, "d": Instance(D, default_delegate) if default_delegate is not None else Instance(HasTraits),
-          name: KINDS[kind]("d", prefix=prefix)}
+          name: KINDS[kind]("d", prefix=prefix) if listenable else KINDS[kind]("d", prefix=prefix, listenable=False)}
     if kind == "proto":
         # a SECOND deferring attribute, declared later, for the same delegate and the same target
         ns["alias"] = PrototypedFrom("d", prefix=tf(class_prefix))
@@ -99,6 +99,7 @@ def strategy(tier):
         "chain": st.sampled_from([None, None, "same", "explicit"]),
         "ops": st.lists(OP, min_size=1, max_size=20),
         "default_delegate": st.sampled_from([False, False, True]),
+        "listenable": st.sampled_from([True, True, True, False]),
     })
 
 
@@ -112,7 +113,12 @@ def run(case, ctx):
         dq.on_trait_change(lambda: None, dname)
         setattr(dq.d, dtarget, 9)
     ds = [D(), D(), D()]
-    Q, name1, target = build_hop1(kind1, style1, case.get("class_prefix", "d_"), ds[0] if case.get("default_delegate") else None)
+    # listenable=False: reads, writes and deletes behave the same, only target changes are not announced (not judged then)
+    listenable = not (case.get("listenable") is False and not case["chain"])
+    if not listenable:
+        ctx.label("not-listenable")
+    Q, name1, target = build_hop1(kind1, style1, case.get("class_prefix", "d_"), ds[0] if case.get("default_delegate") else None,
+                                  listenable)
     if case.get("default_delegate"):
         qs = [Q(), Q(d=ds[1])]           # the first object's delegate IS the default object of the trait, never assigned
         ctx.label("default-delegate")
@@ -268,7 +274,7 @@ def run(case, ctx):
             exp = 1 if (linked_to(di) and old != op[2]) else 0
             if exp:
                 ctx.label("linked-target-change")
-            for mech in ("otc", "obs"):
+            for mech in (("otc", "obs") if listenable else ()):
                 got = [l for l in log if l[0] == mech]
                 if len(got) != exp:
                     ctx.fail("notify/%s" % ("missed" if exp else "unexpected"),
